@@ -183,6 +183,27 @@ class Ctx:
         self.traces += judged
         return rej
 
+    def apalache_inductive(self, module: str, key: str, timeout=400):
+        """Bonus: discharge  Init => IndInv  and  IndInv /\\ Next => IndInv'  with Apalache.  Nothing depends on it:
+        a failure or timeout is recorded, never an alarm and never a machinery failure."""
+        import shutil
+        import subprocess
+        src = SPEC / "apalache" / (module + ".tla")
+        wd = self.work.path("apalache-" + module)
+        wd.mkdir(parents=True, exist_ok=True)
+        shutil.copy(src, wd / src.name)
+        res = {}
+        for name, args in (("init_implies_inv", ["--init=Init", "--inv=IndInv", "--length=0"]),
+                           ("inv_is_inductive", ["--init=IndInit", "--inv=IndInv", "--length=1"])):
+            try:
+                p = subprocess.run(["apalache-mc", "check"] + args + [f"--out-dir={wd / 'out'}", f"--run-dir={wd / 'run'}", src.name],
+                                   cwd=str(wd), capture_output=True, text=True, timeout=timeout)
+                res[name] = "proved" if "EXITCODE: OK" in p.stdout and "NoError" in p.stdout else "not proved"
+            except (subprocess.TimeoutExpired, OSError) as e:
+                res[name] = "not run: " + type(e).__name__
+        self.extra[key] = res
+        return res
+
     # ------------------------------------------------------------------ verdicts
     def violation(self, clause: str, replay: dict, key: str | None = None):
         """Report a P-level violation observed on the real code (deduplicated by key)."""
